@@ -28,9 +28,9 @@ CLAIMED = {
    note=TRUST+"util.IsServerAuthCert/IsEmailProtectionCert/IsCodeSigning, Configuration.MaybeConfigure and the lint methods are uninterpreted oracles.",
    technique="decision-table extraction (path enumeration over go/ssa) vs. spec table; SSA freshness analysis of constructors; field-write census", ref="§3 C04"),
  "C01": dict(level="other",
-   text="Decides, for every input, the construction of the result set: decision tables of the three execute* loops (unrolled twice, only the index loop-carried) show exactly one Execute/metadata/store/flag-update per registered lint with no skipping branch; a field-write census shows nobody else writes Results or the flags (flags only ever set to true); the status-flow analysis shows none of the 377 Execute methods nor the framework's can return nil or a status other than the seven named ones (zero value, literal without Status, conversion, arithmetic are violations or undecided); the flag switch is compared with the contract on statuses -1..8; the Lint*Ex entry points' nil guards, default registry and Version stamp (= module major version) and the recover net are decided from their decision tables. 'No hang' and panic-freedom of CRL/OCSP lints are outside this check.",
-   note=TRUST+"Induction over the range loop relies on the checked fact that only the index is carried between iterations. Termination of lint bodies is not decided.",
-   technique="decision-table extraction over go/ssa (bounded loop unrolling + induction side condition), interprocedural status/nil-flow, field-write census", ref="§3 C01"),
+   text="Decides, for every input, the construction of the result set: decision tables of the three execute* loops (unrolled twice, only the index loop-carried) show exactly one Execute/metadata/store/flag-update per registered lint with no skipping branch; a field-write census shows nobody else writes Results or the flags (flags only ever set to true); the status-flow analysis shows none of the 377 Execute methods nor the framework's can return nil or a status other than the seven named ones (zero value, literal without Status, conversion, arithmetic are violations or undecided); the flag switch is compared with the contract on statuses -1..8; the Lint*Ex entry points' nil guards, default registry and Version stamp (= module major version) and the recover net are decided from their decision tables. 'No hang' is decided as a termination census: each of the 346 natural loops and every static call cycle in zlint, lint, util and lints/* must be a range loop, a counter stepping by a constant towards a loop-invariant bound tested on every iteration, a slice/string strictly shrinking on every iteration, or one of five reviewed ledger lines whose witness is re-checked; any other loop is reported. Library callees are assumed to terminate; panic-freedom of CRL/OCSP lints is C02's ledger.",
+   note=TRUST+"Induction over the range loop relies on the checked fact that only the index is carried between iterations. Termination: library functions are assumed to terminate; asn1.Unmarshal returns a strictly shorter remainder and utf8.DecodeRune a size ≥ 1 on non-empty input (documented).",
+   technique="decision-table extraction over go/ssa (bounded loop unrolling + induction side condition), interprocedural status/nil-flow, field-write census, natural-loop termination census (induction-variable / shrinking-slice classification + witnessed ledger)", ref="§3 C01"),
  "C13": dict(level="proof",
    text="Decision tables of LintSource.FromString and UnmarshalJSON evaluated on the value of every declared LintSource constant and on undeclared strings (declared ⇒ accepted as itself, anything else ⇒ Unknown/error); decision tables of SourceList.FromString (Unknown ⇒ error, blanks skipped) and of lintNamesToMap (trimmed name, all three lookups, unknown ⇒ error); Filter and the CLI route both source and name lists through them and propagate the error; every registration uses a declared source; every lint name in every RegisterProfile call is registered. All obligations must discharge.",
    note=TRUST+"encoding/json and strings.TrimSpace/Split are trusted.",
